@@ -805,3 +805,32 @@ Proof.
       injection Heq; intros; subst; vm_compute in Hcr; try discriminate Hcr;
       injection Hcr as <-; vm_compute; reflexivity.
 Qed.
+
+(* ======================================================================================
+   histories: a look-up depends only on the current graph
+   ====================================================================================== *)
+Definition is_lookup (op : hop) : bool := match op with HLookup _ _ => true | _ => false end.
+
+Lemma run_history_snoc_l : forall ops d k f,
+  run_history d (ops ++ [HLookup k f]) = run_history d ops ++ [lookup_now (graph_after d ops) k f].
+Proof.
+  induction ops as [|op ops IH]; intros d k f; [reflexivity|].
+  destruct op; cbn [app run_history graph_after apply_hop]; rewrite IH; reflexivity.
+Qed.
+
+Lemma graph_after_ignores_lookups_l : forall ops d,
+  graph_after d ops = graph_after d (filter (fun op => negb (is_lookup op)) ops).
+Proof.
+  induction ops as [|op ops IH]; intros d; [reflexivity|].
+  destruct op; cbn [filter is_lookup negb graph_after apply_hop]; apply IH.
+Qed.
+
+Lemma lookup_depends_only_on_current_graph_l : forall d ops ops' k f,
+  filter (fun op => negb (is_lookup op)) ops = filter (fun op => negb (is_lookup op)) ops' ->
+  last (run_history d (ops ++ [HLookup k f])) None = lookup_now (graph_after d (filter (fun op => negb (is_lookup op)) ops)) k f /\
+  last (run_history d (ops ++ [HLookup k f])) None = last (run_history d (ops' ++ [HLookup k f])) None.
+Proof.
+  intros d ops ops' k f H.
+  rewrite !run_history_snoc_l, !last_last.
+  rewrite (graph_after_ignores_lookups_l ops), (graph_after_ignores_lookups_l ops'), H. split; reflexivity.
+Qed.
